@@ -12,7 +12,8 @@ theorem flat_addGroupIfMissing (gs : List (String × List Nat)) (g : String) : f
 theorem freshReq_newReq (kind stars group sp remaining items nc)
     (h1 : kind = .apply → items = []) (h2 : kind = .map → remaining = 0) :
     FreshReq (newReq kind stars group sp remaining items nc) :=
-  ⟨⟨nc, rfl, by simp [newReq, grantsL, Req.pend]⟩, fun _ h => by simp [newReq] at h,
+  ⟨⟨nc, rfl, by simp [newReq, grantsL, Req.pend], by simp [newReq, grantsL, Req.pend],
+      fun _ _ _ _ w hw => by simp [newReq] at hw⟩, fun _ h => by simp [newReq] at h,
     ⟨rfl, rfl, rfl, rfl, fun h => by simp [Req.cnt, newReq, h1 h], fun h => h2 h⟩, Or.inl rfl⟩
 
 /-- registering a request whose own books are balanced -/
@@ -69,7 +70,7 @@ theorem tame_cancelGroupMetas (p : Pool) (g) : Tame p (p.cancelGroupMetas g) := 
   simp only
   refine Tame.trans (tame_foldl _ _ (fun p m => tame_metaCancel p m) p) (tame_of_map _ _ _ rfl rfl rfl ?_)
   intro x
-  split <;> exact ⟨rfl, rfl, rfl, Nat.le_refl _, fun h => h, rfl, Or.inl rfl⟩
+  split <;> exact ⟨rfl, rfl, rfl, Nat.le_refl _, fun h => h, rfl, Or.inl rfl, fun h => h, fun h => h, fun _ => Nat.le_refl _⟩
 
 theorem tame_cancelGroupBody (p p' : Pool) (g ids order) (h : p.cancelGroupBody g ids order = some p') : Tame p p' := by
   unfold cancelGroupBody at h
